@@ -209,6 +209,10 @@ class Blockwise(ArrayExpr):
                         return False
         return True
 
+    @property
+    def _unifies_operand_chunks(self):
+        return bool(self.align_arrays)
+
     def _requires_grid_preservation(self, dependency):
         return type(self) is Blockwise and not self.align_arrays
 
